@@ -292,6 +292,38 @@ func init() {
 						c.Sample(map[string]any{"list": fmt.Sprintf("%q", na), "compared_with": len(lists)})
 					}
 				}},
+				{Name: "equality-long", N: tierN(tier, 4000, 60000), Run: func(c *Ctx, idx int) {
+					// lists of 8-20 entries with distinct tags: permutations must be equal, one changed text / tag / missing entry not
+					n := 8 + c.R.Intn(13)
+					var a []lv
+					for i := 0; i < n; i++ {
+						a = append(a, lv{vocab.LangRef(fmt.Sprintf("t%02d", i)), fmt.Sprintf("text %d", c.R.Intn(4))})
+					}
+					b := append([]lv{}, a...)
+					c.R.Shuffle(len(b), func(i, j int) { b[i], b[j] = b[j], b[i] })
+					kind := []string{"permutation", "one-text-changed", "one-tag-changed", "same-length-other-entry"}[idx%4]
+					k := c.R.Intn(n)
+					switch kind {
+					case "one-text-changed":
+						b[k].text += "!"
+					case "one-tag-changed":
+						b[k].tag += "x"
+					case "same-length-other-entry":
+						b[k] = lv{"zz", "other"}
+					}
+					na, nb := toNLV(a), toNLV(b)
+					want := pairSet(a) == pairSet(b)
+					c.Distinct(fmt.Sprintf("eqlong|%d|%s|%v", n, kind, b), true)
+					c.Count("equality-comparisons", 2)
+					c.Guard("NaturalLanguageValues.Equals", func() {
+						for _, pr := range [][2]vocab.NaturalLanguageValues{{na, nb}, {nb, na}} {
+							if got := pr[0].Equals(pr[1]); got != want {
+								c.Fail("nlv|Equals|long|"+kind, fmt.Sprintf("lists of %d entries (%s): Equals = %v, same set of pairs: %v", n, kind, got, want), map[string]any{"a": fmt.Sprintf("%q", pr[0]), "b": fmt.Sprintf("%q", pr[1])})
+							}
+						}
+					})
+					c.Eval(2)
+				}},
 				{Name: "random", N: tierN(tier, 20000, 400000), Run: func(c *Ctx, idx int) {
 					n := 5 + c.R.Intn(26)
 					ops := make([]nlvOp, n)
